@@ -754,6 +754,14 @@ class VHDXInspector(FileInspector):
                     '<QII', entry[16:])
                 self._trace('Meta entry %i specifies offset: %x',
                             i, meta_offset)
+                header = self.region('header')
+                if meta_offset < header.offset + header.length:
+                    # We stream, so we cannot go back to a region that
+                    # starts inside the headers we have already consumed
+                    # (a valid image never places it there)
+                    raise ImageFormatError(
+                        'Metadata region offset %x overlaps the header' % (
+                            meta_offset))
                 # NOTE(danms): The meta_len in the region descriptor is the
                 # entire size of the metadata table and data. This can be
                 # very large, so we should only capture the size required
@@ -798,6 +806,12 @@ class VHDXInspector(FileInspector):
                 item_offset, item_length, _reserved = struct.unpack(
                     '<III',
                     meta_buffer[entry_offset + 16:entry_offset + 28])
+                if item_offset < entries_size:
+                    # Likewise, an item cannot live inside the entry table
+                    # that we had to read in order to find it
+                    raise ImageFormatError(
+                        'Metadata item offset %x overlaps the table' % (
+                            item_offset))
                 item_length = min(item_length,
                                   self.VHDX_METADATA_TABLE_MAX_SIZE)
                 self.region('metadata').length = len(meta_buffer)
